@@ -406,7 +406,8 @@ def write_if_changed(path, content):
     return False
 
 
-T5_GROUPS = (("bv", "FnsBv.v"), ("rsn2", "FnsRsn2.v"), ("rsw2", "FnsRsw2.v"), ("rss", "FnsRss.v"))
+T5_GROUPS = (("bv", "FnsBv.v"), ("rsn2", "FnsRsn2.v"), ("rsw2", "FnsRsw2.v"), ("rss", "FnsRss.v"),
+             ("qv2", "FnsQv2.v"), ("rsq", "FnsRsq.v"))
 
 
 def main():
